@@ -435,6 +435,21 @@ func (r *Run) absorb(c *Case) {
 	}
 }
 
+// skipEngine: VERIF_ONLY_ENGINES=a,b restricts a run to the named engines
+// (prefix match); a debugging aid, such a run disables the observation floors.
+func (r *Run) skipEngine(engine string) bool {
+	only := os.Getenv("VERIF_ONLY_ENGINES")
+	if only == "" {
+		return false
+	}
+	for _, e := range strings.Split(only, ",") {
+		if e != "" && strings.HasPrefix(engine, e) {
+			return false
+		}
+	}
+	return true
+}
+
 func (r *Run) noteEngine(engine string) {
 	r.mu.Lock()
 	for _, e := range r.engines {
@@ -449,7 +464,7 @@ func (r *Run) noteEngine(engine string) {
 
 // Cases runs n seeded cases of an engine in-process on parallel workers.
 func (r *Run) Cases(engine string, n int, opt Opt, fn func(c *Case)) {
-	if r.child != nil {
+	if r.child != nil || r.skipEngine(engine) {
 		return
 	}
 	r.noteEngine(engine)
@@ -581,6 +596,9 @@ func (r *Run) runLocal(engine string, n, w, W int, opt Opt, fn func(*Case)) {
 // runs its slice serially). A child that dies with a runtime-fatal error whose
 // stack has a golib frame is a violation witnessed by the case it was running.
 func (r *Run) CasesProc(engine string, n int, opt Opt, fn func(c *Case)) {
+	if r.child == nil && r.skipEngine(engine) {
+		return
+	}
 	if r.child != nil {
 		if r.child.engine != engine {
 			return
@@ -977,7 +995,7 @@ func (r *Run) Finish() {
 		}
 	}
 	floorsMissed := []string{}
-	if r.replay == nil {
+	if r.replay == nil && os.Getenv("VERIF_ONLY_ENGINES") == "" {
 		keys := make([]string, 0, len(r.floors))
 		for k := range r.floors {
 			keys = append(keys, k)
